@@ -190,6 +190,10 @@ inline std::vector<Abstract> seed_grammars()
     add("late-nullable", 6, {mk(0, {N(1), N(2)}), mk(1, {T(0)}), mk(2, {N(3), T(1)}), mk(3, {T(2), N(3)}), mk(3, {N(4)}), mk(4, {N(5)}), mk(5, {})});
     // an optional part in the middle of a rule, behind a nonterminal and in front of something that is not nullable
     add("optional-in-middle", 5, {mk(0, {N(1), N(2), T(0), N(3), T(1)}), mk(1, {T(2)}), mk(1, {T(3), T(2)}), mk(2, {}), mk(2, {T(4)}), mk(3, {}), mk(3, {T(5), N(4)}), mk(4, {T(2)}), mk(4, {N(4), T(4), T(2)})});
+    // no empty rule anywhere + indirect left recursion whose recursive alternatives are listed before the base case + the recursive nonterminal directly after
+    // another nonterminal (stmt <- label call ';' ; postfix <- call | member | id ; call <- postfix '(' ')' ; member <- postfix '.' id): FIRST sets that need the fixpoint
+    // (each member of the cycle follows a nonterminal of its own, so whichever member a lazy computation leaves short shows)
+    add("indirect-left-recursion-no-empty-rule", 6, {mk(0, {N(1), N(3), T(4)}), mk(0, {N(5), N(4), T(4)}), mk(0, {N(2), T(4)}), mk(1, {T(0), T(1)}), mk(5, {T(5), T(1)}), mk(2, {N(3)}), mk(2, {N(4)}), mk(2, {T(0)}), mk(3, {N(2), T(2), T(3)}), mk(4, {N(2), T(5), T(0)})});
     // palindromic-like nesting
     add("nesting", 2, {mk(0, {T(0), N(0), T(1)}), mk(0, {T(0), N(1), T(1)}), mk(1, {T(2)}), mk(1, {T(2), N(1)})});
     return v;
@@ -272,6 +276,9 @@ inline void add_precedences(Abstract& a, Choice& ch)
 
 enum Flavor { CONFLICT_FREE, PRECEDENCE, RECOVERY, ANY };
 
+// emit mode's gallery: the next grammar is the k-th seed grammar as written (no mutation); -1 = off
+inline int& force_seed() { static thread_local int k = -1; return k; }
+
 inline Grammar gen_grammar(Choice& ch, Flavor fl, std::string& strategy, const std::vector<tpl::SlotInfo>& slots)
 {
     Abstract a;
@@ -279,8 +286,10 @@ inline Grammar gen_grammar(Choice& ch, Flavor fl, std::string& strategy, const s
     uint32_t which;
     if (fl == PRECEDENCE) which = uint32_t(ch.weighted({2, 2, 2, 6}));
     else which = uint32_t(ch.weighted({4, 3, 3, 0}));
+    if (force_seed() >= 0) which = 99;
     switch (which)
     {
+    case 99: { auto seeds = seed_grammars(); a = seeds[size_t(force_seed()) % seeds.size()]; a.strategy += "(as written)"; break; }
     case 0: a = gen_combinator(ch); if (ch.chance(1, 3)) { mutate(a, ch, allow_error); a.strategy += "+mut"; } break;
     case 1: { auto seeds = seed_grammars(); a = seeds[ch.below(uint32_t(seeds.size()))]; mutate(a, ch, allow_error); a.strategy += "+mut"; break; }
     case 2: a = gen_random(ch, allow_error); break;
